@@ -513,6 +513,9 @@ class PoolWorld:
             # "after": [actor, pc]  - enabled once that actor has executed `pc` ops
             if self.pcs[after[0]] < after[1] or after[0] in self.drivers and opts.get("after_done"):
                 return False
+        nc = opts.get("needs_cancelled")
+        if nc is not None and nc not in self.group_cancelled:
+            return False
         if name == "cancel":
             return all(self.resolve_id(s) is not None for s in pos)
         if name == "cancel_group":
